@@ -621,9 +621,7 @@ Theorem fill_rect_premul st x y w h src o st' : all_premul st -> source_ok src -
 Proof.
   intros Hst Hsrc H. unfold fill_rect in H. cbv zeta in H.
   destruct (xf_is_identity (d_ctm st) && _ && _).
-  - destruct (chk32 _) as [xr|]; [|discriminate]. cbn [bind] in H.
-    destruct (chk32 _) as [yb|]; [|discriminate]. cbn [bind] in H.
-    destruct (r_empty _); [inversion H; subst; exact Hst|].
+  - destruct (r_empty _); [inversion H; subst; exact Hst|].
     exact (composite_premul _ _ None _ _ _ _ _ Hst Hsrc I H).
   - eapply fill_premul; eassumption.
 Qed.
@@ -646,8 +644,7 @@ Qed.
 Theorem mask_op_premul st src x y mw mh data st' : all_premul st -> source_ok src -> Forall byte data ->
   mask_op st src x y mw mh data = Ok st' -> all_premul st'.
 Proof.
-  intros Hst Hsrc Hd H. unfold mask_op in H.
-  destruct (chk32 _); [|discriminate]. cbn [bind] in H. destruct (chk32 _); [|discriminate]. cbn [bind] in H.
+  intros Hst Hsrc Hd H. unfold mask_op in H. cbv zeta in H.
   exact (composite_premul _ _ (Some data) _ _ _ _ _ Hst Hsrc Hd H).
 Qed.
 
@@ -740,8 +737,7 @@ Section SurfaceOk.
   Lemma cs_row_ok dw sw sbuf ox oy xa w buf y buf' : Forall px_ok sbuf -> Forall px_ok buf ->
     cs_row g dw sw sbuf ox oy xa w buf y = Ok buf' -> Forall px_ok buf'.
   Proof.
-    intros Hs Hb H. unfold cs_row in H.
-    repeat (match type of H with (do _ <- chk32 ?v; _) = _ => destruct (chk32 v); [|discriminate]; cbn [bind] in H end).
+    intros Hs Hb H. unfold cs_row in H. cbv zeta in H.
     destruct (slice sbuf _ _) as [srow|] eqn:E1; [|discriminate]. cbn [bind] in H.
     destruct (slice buf _ _) as [drow|] eqn:E2; [|discriminate]. cbn [bind] in H.
     destruct (map2r g srow drow) as [row|] eqn:E3; [|discriminate]. cbn [bind] in H.
@@ -763,15 +759,8 @@ Section SurfaceOk.
   Lemma composite_surface_ok dw dh dbuf sw sh sbuf sr dx dy out : Forall px_ok sbuf -> Forall px_ok dbuf ->
     composite_surface g dw dh dbuf sw sh sbuf sr dx dy = Ok out -> Forall px_ok out.
   Proof.
-    intros Hs Hb H. unfold composite_surface in H.
-    destruct (chk32 _); [|discriminate]. cbn [bind] in H.
-    destruct (chk32 _); [|discriminate]. cbn [bind] in H. cbv zeta in H.
-    destruct (r_translate _ _ _); [|discriminate]. cbn [bind] in H.
-    destruct (chk32 _); [|discriminate]. cbn [bind] in H.
-    destruct (chk32 _); [|discriminate]. cbn [bind] in H.
-    destruct (r_translate _ _ _); [|discriminate]. cbn [bind] in H.
-    destruct (r_empty _); [inversion H; subst; exact Hb|].
-    destruct (chk32 _); [|discriminate]. cbn [bind] in H.
+    intros Hs Hb H. unfold composite_surface in H. cbv zeta in H.
+    destruct (_ || _); [inversion H; subst; exact Hb|].
     exact (cs_rows_ok _ _ _ _ _ _ _ _ _ _ Hs Hb H).
   Qed.
 End SurfaceOk.
